@@ -105,7 +105,7 @@ func ruleC06a(c *Ctx) {
 				// routed chain
 				c.check(routeVar != (Var{}) && p.isVar(base, routeVar), name, "routed chain: Target is the selected route's Function", p.ipos(tgt[0]),
 					"Target = <"+routeVar.String()+">.Function", "Target is the Function of a route other than the one SelectRoute returned")
-				base0, ops, singles := spreadAppendChain(flt[0].Val)
+				base0, ops, singles := spreadAppendChain(refinePhi(flt[0].Val, factsAt(fn)[flt[0].Block()]))
 				want := []struct{ owner, field string }{{"Container", "containerFilters"}, {"WebService", "filters"}, {"Route", "Filters"}}
 				okOrder := len(ops) == 3 && singles == 0
 				detail := ""
@@ -259,6 +259,52 @@ func isTotalFilterCountTest(p *Program, f condFact, d *Dispatcher) bool {
 			return false
 		}
 		arg := call.Call.Args[0]
+		// len of the composed list itself: every way the list is obtained is either nil where the three lists were
+		// found empty, or the concatenation of exactly the three lists (whose length is the sum of theirs)
+		if ph, ok := strip(arg).(*ssa.Phi); ok && ph.Parent() != nil {
+			pf := factsAt(ph.Parent())
+			for k, e := range ph.Edges {
+				if k >= len(ph.Block().Preds) {
+					return false
+				}
+				pr := ph.Block().Preds[k]
+				if isNilConst(e) {
+					fs := map[condFact]bool{}
+					for g := range pf[pr] {
+						fs[g] = true
+					}
+					if iff, ok := pr.Instrs[len(pr.Instrs)-1].(*ssa.If); ok && pr.Succs[0] != pr.Succs[1] {
+						addCondFacts(fs, iff.Cond, pr.Succs[0] == ph.Block())
+						deriveFacts(fs)
+					}
+					okEdge := false
+					for g := range fs {
+						if _, isPhiLen := g.Cond.(*ssa.BinOp); isPhiLen && g != f && isTotalFilterCountTest(p, g, d) {
+							okEdge = true
+						}
+					}
+					if !okEdge {
+						return false
+					}
+					continue
+				}
+				_, ops, singles := spreadAppendChain(e)
+				if len(ops) != 3 || singles != 0 {
+					return false
+				}
+				if _, ok := fieldLoadIs(ops[0], "Container", "containerFilters"); !ok {
+					return false
+				}
+				if bb, ok := fieldLoadIs(ops[1], "WebService", "filters"); !ok || !p.isVar(bb, d.Service) {
+					return false
+				}
+				if bb, ok := fieldLoadIs(ops[2], "Route", "Filters"); !ok || !p.isVar(bb, d.Route) {
+					return false
+				}
+			}
+			seen["c"], seen["s"], seen["r"] = true, true, true
+			return true
+		}
 		if _, ok := fieldLoadIs(arg, "Container", "containerFilters"); ok {
 			seen["c"] = true
 			return true
